@@ -28,7 +28,7 @@ TECHNIQUE = "runtime monitoring: conservation oracles (first-principles mass, ce
 def cases(tier, seed):
     rng = np.random.default_rng(16000 + seed)
     out = []
-    n = 80 if tier == "quick" else 800
+    n = 80 if tier == "quick" else 2400
     for k in range(n):
         half = "full" if k % 3 == 0 else "left"
         spec = M.random_spec(rng, half=half, nx=int(rng.integers(2, 4)), ny=int(rng.integers(2, 12)))
